@@ -32,6 +32,14 @@ P = {
          "P*k and k*P for every (k, value) over the scalar alphabet x all representatives (identity included) against the reference k-fold sum; the discrete-log shortcut of the oracle is itself cross-checked against integer double-and-add; units 0/1/r-1, (a+b)P, (ab)P; EVERY scalar 0..bound and r-bound..r-1 on every representative of +-G and O.",
          "Enumerated alphabet only. Trusted: rustc, num-bigint, reference model.",
          "DESIGN.md 5 (C05)"),
+ "C08": (True, GRID + "; all lengths 0..=140, all 256 prefix bytes, every single-bit flip, coordinate substitutions, cross-format confusion; executed in two build profiles",
+         "Six decoders and Fq2::from_slice on the BYTES alphabet; the small dimensions are covered completely (all lengths, all prefix bytes, all bit positions; thorough: all two-bit flips of two points). Oracle: reference decoder (exact length/prefix, coordinates < q, curve equation, r*P = O by reference scalar multiplication); accepted inputs must denote the reference point and re-encode to the input; no panic; the whole corpus runs in the release build and in the dbg build (debug assertions + overflow checks).",
+         "Which Err variant comes back is unconstrained. Enumerated corpus only. Trusted: rustc, num-bigint, reference model.",
+         "DESIGN.md 5 (C08)"),
+ "C09": (True, GRID + "; subgroup / twist / small-order / sum points and near misses through every validating entry point",
+         "AffineG1::new, AffineG2::new and all decoders on subgroup points, near misses, points of other curves, the first twist points of a fixed enumeration, their cofactor-cleared multiples, multiples of order dividing 13, 1621, 13*1621, and subgroup + small-order sums; oracle = curve equation and r*P = O with big-scalar reference multiplication; the twist order r(2q-r) is asserted for every twist point.",
+         "Enumerated candidates only. Trusted: rustc, num-bigint, reference model.",
+         "DESIGN.md 5 (C09)"),
  "C10": (True, GRID + "; all non-identity concrete values x 3 formats x 2 groups",
          "Library encodings of every representative equal the SM9 byte formats of the reference model's affine coordinates, decode to an equal value and re-encode identically.",
          "Enumerated alphabet only. Trusted: rustc, num-bigint, reference model.",
